@@ -20,7 +20,7 @@ MANIFEST_INFO = {
     "engine": "A",
     "design_ref": "DESIGN.md section 5, C05",
     "technique": "stateless deviation-bounded DFS over stage behaviours of generated TestCase programs that attach details (colliding names, empty/multi-chunk/binary/volatile payloads), use assertThat/expectThat with detail-carrying mismatches, detail-carrying fixtures (setUp ok/failing) and addOnException handlers; marker accounting on the details delivered to an extended result that reads every detail inside the outcome call",
-    "level_text": "448 payload configurations (user details under 7 sets of colliding names x 4 mismatch shapes x 4 fixture shapes x handlers on/off x both spellings of expected failure) x every program with at most 3 (quick) / 4 (= all, thorough) deviating stages over 11 behaviours (incl. the same exception object raised by several stages, and skipTest() with a falsy reason that has a text of its own), one handler registered before run(): every attached payload marker must arrive in exactly one delivered detail with identical bytes and equal content type, every user exception marker in exactly one text/x-traceback detail, the skip reason as given, volatile content as of reporting time, and every handler once per user exception before the outcome.",
+    "level_text": "560 payload configurations (user details under 7 sets of colliding names x 4 mismatch shapes x 5 fixture shapes (incl. an old-style fixture interrupted in setUp; a fixture in use attaches one more detail after its setUp) x handlers on/off x both spellings of expected failure) x every program with at most 3 (quick) / 4 (= all, thorough) deviating stages over 11 behaviours (incl. the same exception object raised by several stages, and skipTest() with a falsy reason that has a text of its own), one handler registered before run(): every attached payload marker must arrive in exactly one delivered detail with identical bytes and equal content type, every user exception marker in exactly one text/x-traceback detail, the skip reason as given, volatile content as of reporting time, and every handler once per user exception before the outcome.",
     "level_note": "User details with names that collide with generated ones are attached while the details dict is still empty (attaching a detail under a name that already exists is a documented overwrite, outside the statement); the name 'reason' is never used for user details; extra tracebacks produced by testtools/fixtures themselves (forced failure, SetupError) are allowed.",
 }
 
@@ -229,7 +229,10 @@ def do_fixture(case, ctx, site, action):
         ctx.extra.setdefault("user_exc", []).append(marker)
     if bad_cleanup == "oldstyle":
         case.useFixture(OldStyleFixture(d, marker))
-    case.useFixture(DFixture(d, marker, bad_cleanup))
+    fx = case.useFixture(DFixture(d, marker, bad_cleanup))
+    # a detail the fixture attaches while it is in use (after its setUp): still one of its details
+    late = _mk_details(ctx, "L", ("fx-late",), site)
+    fx.addDetail("fx-late", late["fx-late"])
 
 
 def do_handlers(case, ctx, site, action):
